@@ -112,7 +112,7 @@ def _unreg_post_refs(c):
 
 
 REG.contract(
-    f"{PMOD}:unregister_provide_reference", prop=P, types={"reference_id": Str}, globals=GLOBALS, ghost=GHOST,
+    f"{PMOD}:unregister_provide_reference", prop=("C05", "C06"), types={"reference_id": Str}, globals=GLOBALS, ghost=GHOST,
     requires=[ginv, lambda c: z3.Not(z3.Select(SS.has(active(c)), c["reference_id"].t))],
     modifies=["provide_cache", "provide_references", "all_reference_ids"], raises={},
     loops={0: Loop(inv=[ginv, _unreg_inv_unvisited, _unreg_inv_visited, _ids_removed, _cache_tracks_refs], variant="len(_seq0) - _i0")},
@@ -182,7 +182,7 @@ def _reg_post_registered(c):
 
 
 REG.contract(
-    f"{PMOD}:register_provide_reference", prop=P, types={"context": Ref(CTX), "reference_id": Str}, globals=GLOBALS, ghost=GHOST,
+    f"{PMOD}:register_provide_reference", prop=("C05", "C06"), types={"context": Ref(CTX), "reference_id": Str}, globals=GLOBALS, ghost=GHOST,
     requires=[ginv, _ctx_wf, lambda c: c["context"].t > 0],
     modifies=["provide_references", "all_reference_ids"], raises={},
     loops={0: Loop(inv=[ginv, _reg_inv_done, _reg_inv_only_adds], variant="len(_seq0) - _i0")},
@@ -254,6 +254,23 @@ def _mpc_post_deleted_iff_unreferenced(c):
                                                           z3.Not(z3.Select(SS.has(z3.Select(REFS.val(refs), pid)), pid)))))
 
 
+def _mpc_sweep_inv(c):
+    """error path: every reference id still listed was there before the body, or is a not-yet-visited new one"""
+    ids = G(c, "all_reference_ids")
+    before = c["all_reference_ids_before"].t
+    new = c["new_reference_ids"].t
+    K, i = c["_seq0"].t, c["_i0"].t
+    r = z3.Const("bv_r", S)
+    return z3.ForAll([r], z3.Implies(z3.Select(IDS.has(ids), r), z3.Or(z3.Select(IDS.has(before), r),
+                                                                         z3.And(z3.Select(IDS.has(new), r), ops.keypos(K, r) >= i))))
+
+
+def _mpc_no_new_reference_survives(c):
+    """on a failure, no reference registered inside the failed body survives (those components will never render)"""
+    r = z3.Const("bv_r", S)
+    return z3.ForAll([r], z3.Implies(z3.Select(IDS.has(G(c, "all_reference_ids")), r), z3.Select(IDS.has(G(c, "all_reference_ids", True)), r)))
+
+
 _MPC_REQ = [ginv,
             lambda c: z3.Select(CACHE.has(G(c, "provide_cache")), c["provide_id"].t),
             lambda c: z3.Not(z3.Select(SS.has(active(c)), c["provide_id"].t)),
@@ -266,9 +283,11 @@ REG.contract(
     requires=_MPC_REQ, yield_hook=_mpc_yield, ghost_update=_mpc_ghost_exit,
     modifies=["provide_cache", "provide_references", "all_reference_ids"],
     raises={"Any": None},
-    loops={0: Loop(inv=[ginv, _no_component_id_is_a_provider, lambda c: z3.Select(SS.has(active(c)), c["provide_id"].t)], variant="len(_seq0) - _i0")},
+    loops={0: Loop(inv=[ginv, _no_component_id_is_a_provider, lambda c: z3.Select(SS.has(active(c)), c["provide_id"].t), _mpc_sweep_inv,
+                        lambda c: c["all_reference_ids_before"].t == G(c, "all_reference_ids", True)], variant="len(_seq0) - _i0")},
     ensures={"ginv": ginv, "deleted_iff_unreferenced": _mpc_post_deleted_iff_unreferenced},
-    xensures={"Any": {"ginv": ginv, "deleted_iff_unreferenced": _mpc_post_deleted_iff_unreferenced}},
+    xensures={"Any": {"ginv": ginv, "deleted_iff_unreferenced": _mpc_post_deleted_iff_unreferenced,
+                      "no_reference_registered_in_the_failed_body_survives": _mpc_no_new_reference_survives}},
 )
 
 
